@@ -64,7 +64,7 @@ TRUSTED_COMMON = [
     "time has been read (and during purges / flagged browser creations) it advances 1 ms per reading; sub-millisecond float behaviour "
     "is not exercised (a non-integral lifetime in the cache is rendered exactly and so differs from the model and the reference)",
     "harness/cachecommon.py `Ref`: my flat reading of RFC 6762 section 10 and of the C06 sentence (the oracle of stage O)",
-    "str.lower() is ASCII lowering in the driver; the vocabularies are ASCII only",
+    "str.lower() is ASCII lowering in the driver; the vocabularies are ASCII plus one non-ASCII letter that str.lower() does not change (ß)",
 ]
 
 # ------------------------------------------------------------------------------------------
@@ -1219,6 +1219,12 @@ VOCAB = [
     ["p", TZ, 12, IN, "D._Zed._tcp.local."],
     ["s", "D._Zed._tcp.local.", 33, IN, 0, 0, 83, "Host.LOCAL."],
     ["a", "Host.LOCAL.", 1, IN, "0a000004"],
+    # a name with a non-ASCII letter that str.lower() leaves alone but str.casefold() rewrites ("ß" -> "ss"): a lookup path that folds
+    # names differently from DNSEntry.key misses it (seeded defect C05-w4-seed3).  ASCII lowering leaves "ß" alone too, so the driver's
+    # `lower` agrees with str.lower on it
+    ["a", "Fußboden.local.", 1, IN, "0a000005"],
+    ["a", "FUßBODEN.LOCAL.", 1, IN, "0a000005"],     # same identity
+    ["a", "fußboden.local.", 1, IN, "0a000006"],     # its sibling (cache-flush victim / flusher)
 ]
 RARE = {14, 15}
 TTLS = [0, 1, 2, 120, 1124, 1125, 4500]
